@@ -102,3 +102,39 @@ Example C16_example_stale :
   obs_on toy_op toy_obs 1%N (toy_run h) = [(false, 0)]%N /\
   obs_on toy_op toy_obs 2%N (toy_run h) = [(true, 1); (true, 2)]%N.
 Proof. vm_compute. repeat split. Qed.
+
+(** ---- appended by the Eng builder: the instance for the session-engine model ----
+    coq/Svc/EngInstance.v instantiates the service layer with sess := the Eng
+    session state, op/obs := the session functions of the C API and what they
+    let a client read ([Live] observation of a live session / [Dead] return value
+    on an id without session), for any configuration and any translator.  For
+    ANY interleaving with calls, creations and destructions of other sessions,
+    session [i] observes exactly the transcript of its own calls run alone
+    ([Eng.Api.run_from] from its state) and ends in the same state; a call that
+    does not name a session leaves it untouched; a dead id is rejected. *)
+From RimeV Require Svc.EngInstance Eng.Api Eng.Engine.
+
+Theorem C16_eng_sessions_isolated :
+  forall cfg translate (h : list (call RimeV.Eng.Api.op)) (s : RimeV.Svc.EngInstance.eng_svc) i x st,
+  lookup _ i (live _ _ s) = Some (x, st) -> quiet_for _ i h = true ->
+  obs_on _ _ i (snd (RimeV.Svc.EngInstance.eng_run cfg translate s h))
+    = List.map RimeV.Svc.EngInstance.Live (snd (RimeV.Eng.Api.run_from cfg translate x (calls_on _ i h))) /\
+  option_map fst (lookup _ i (live _ _ (fst (RimeV.Svc.EngInstance.eng_run cfg translate s h))))
+    = Some (fst (RimeV.Eng.Api.run_from cfg translate x (calls_on _ i h))).
+Proof. exact RimeV.Svc.EngInstance.eng_sessions_isolated. Qed.
+Print Assumptions C16_eng_sessions_isolated.
+
+Theorem C16_eng_frame :
+  forall cfg translate (s : RimeV.Svc.EngInstance.eng_svc) (c : call RimeV.Eng.Api.op) j,
+  mentions _ j c = false ->
+  lookup _ j (live _ _ (fst (RimeV.Svc.EngInstance.eng_step cfg translate s c))) = lookup _ j (live _ _ s).
+Proof. exact RimeV.Svc.EngInstance.eng_frame. Qed.
+Print Assumptions C16_eng_frame.
+
+Theorem C16_eng_dead_id_rejected :
+  forall cfg translate (h : list (call RimeV.Eng.Api.op)) (s : RimeV.Svc.EngInstance.eng_svc) i,
+  lookup _ i (live _ _ s) = None -> never_created _ i h = true ->
+  Forall (rejected_entry _ _ RimeV.Svc.EngInstance.eng_rejected i) (snd (RimeV.Svc.EngInstance.eng_run cfg translate s h)) /\
+  lookup _ i (live _ _ (fst (RimeV.Svc.EngInstance.eng_run cfg translate s h))) = None.
+Proof. exact RimeV.Svc.EngInstance.eng_dead_id_rejected. Qed.
+Print Assumptions C16_eng_dead_id_rejected.
